@@ -10,7 +10,7 @@ from checks.c05 import kth_bad_cases
 
 LEVEL = 'proof'
 ASSUMPTIONS = [
-    'theorem hypotheses: wf_ro (stories have storyID, items have itemID), schema_ok (required tags present, integer messageID), '
+    'theorem hypotheses: the document has a roCreate element (wf_ro is equivalent to that since repair F28), schema_ok (required tags present, integer messageID), '
     'timing_ok (durations / roEdStart present in the running order are numeric / parseable)',
     'classification of well-formed XML: only UnknownMosFileType (C08); malformed XML is outside the model (expat)',
 ]
@@ -93,9 +93,47 @@ class Check(AddCheck):
                 if self.obs(io) != self.obs(mo):
                     dis.append({'case': {'kind': 'add', 'ro': c['ro'], 'msg': c['msg'], 'meta': c['meta']},
                                 'impl': self.obs(io), 'model': self.obs(mo), 'explained': bool(what)})
-        return {'evaluations': n, 'distinct': len(sigs), 'rule': self.rule, 'samples': samples,
+        # histories on one live object (state kept inside the RunningOrder object shows only here)
+        from checks.base import live_histories, compare_histories
+        hcases = list(live_histories(tier, rng))
+
+        def judge(c, k, a, prev):
+            if 'classerr' in a:
+                return None
+            if a.get('err') not in LIB:
+                fl, = engine.schema_flags([{'ro': X.tree_to_string(prev), 'msg': c['msgs'][k]}])
+                if fl and fl['wf'] and fl['schema'] and fl['timing']:
+                    return 'step %d (%s) of a history on one running-order object: %s escaped' % (k, a.get('cls'), a.get('err'))
+            return None
+        hn, hdis, hvio = compare_histories(hcases, lambda s_: (s_.get('classerr'), s_.get('cls'), s_.get('err')), judge)
+        n += hn
+        dis += hdis
+        vio += hvio
+        return {'evaluations': n, 'distinct': len(sigs), 'rule': self.rule + '; plus seeded histories of 3..9 messages (with roReplace, roMetadataReplace, roStorySend, roDelete) merged into one live object',
+                'samples': samples,
                 'distribution': dist, 'disagreements': dis, 'violations': vio,
-                'extra': {'corpus_cases': len(corpus), 'inside_guards': guarded}}
+                'extra': {'corpus_cases': len(corpus), 'inside_guards': guarded, 'live_history_steps': hn}}
+
+    def replay(self, rep):
+        case = rep.get('case') or {}
+        if case.get('kind') == 'hist':
+            steps = impl.run_hist(case['ro'], case['msgs'])
+            prev = X.elem_to_tree(impl.parse_doc(case['ro']))
+            bad = []
+            for k, s_ in enumerate(steps):
+                if 'classerr' not in s_ and s_.get('err') not in LIB:
+                    fl, = engine.schema_flags([{'ro': X.tree_to_string(prev), 'msg': case['msgs'][k]}])
+                    if fl and fl['wf'] and fl['schema'] and fl['timing']:
+                        bad.append(k)
+                if 'tree' in s_:
+                    prev = s_['tree']
+            return {'violation': bool(bad), 'errors': [s_.get('err') for s_ in steps], 'steps_in_guards_with_builtin': bad}
+        return super().replay(rep)
+
+    def shrink(self, v):
+        if v['case'].get('kind') == 'hist':
+            return v
+        return super().shrink(v)
 
     def case_violation(self, case):
         (io, mo), = engine.add_cases([case])
